@@ -1525,7 +1525,7 @@ def walk_no_nested_ (node):
 # ---------------------------------------------------------------------------
 # local copies of attribute chains (`in_port = event.port`, `table = self.macToPort`) put back where they are used
 
-def inline_attr_copies (fnode, roots, keep=()):
+def inline_attr_copies (fnode, roots, keep=(), deep=False):
   """rewrites fnode in place: a local with exactly one assignment, made at the top level of the function body, whose value is a
   pure attribute chain rooted at one of `roots` (parameter names / self), and whose chain is not re-bound anywhere in the function,
   is replaced by that chain at every load (nested functions included); the assignment goes.  Returns the names replaced."""
@@ -1541,11 +1541,20 @@ def inline_attr_copies (fnode, roots, keep=()):
       for nm in n.names: stores[nm] = stores.get(nm, 0) + 2
   rebound = set(norm(n) for n in ast.walk(fnode) if isinstance(n, ast.Attribute) and isinstance(n.ctx, (ast.Store, ast.Del)))
   done = {}
-  for st in list(fnode.body):
-    if isinstance(st, ast.Assign) and len(st.targets) == 1 and isinstance(st.targets[0], ast.Name) and isinstance(st.value, ast.Attribute) \
-       and chain_root(st.value) in roots and st.targets[0].id not in keep and stores.get(st.targets[0].id) == 1 and norm(st.value) not in rebound and stores.get(chain_root(st.value), 0) <= 1:
-      done[st.targets[0].id] = st.value
-      fnode.body.remove(st)
+  blocks = [fnode.body]
+  if deep:      # also inside loops / with-blocks: the copy is made again on every pass, from an attribute nobody re-binds
+    for n in ast.walk(fnode):
+      if n is fnode or isinstance(n, (ast.FunctionDef, ast.AsyncFunctionDef, ast.Lambda)): continue
+      for fld in ('body', 'orelse', 'finalbody'):
+        b_ = getattr(n, fld, None)
+        if isinstance(b_, list) and b_ and isinstance(b_[0], ast.stmt): blocks.append(b_)
+  for blk in blocks:
+    for st in list(blk):
+      if isinstance(st, ast.Assign) and len(st.targets) == 1 and isinstance(st.targets[0], ast.Name) and isinstance(st.value, ast.Attribute) \
+         and chain_root(st.value) in roots and st.targets[0].id not in keep and stores.get(st.targets[0].id) == 1 and norm(st.value) not in rebound and stores.get(chain_root(st.value), 0) <= 1:
+        done[st.targets[0].id] = st.value
+        blk.remove(st)
+        if not blk: blk.append(ast.copy_location(ast.Pass(), st))
   if not done: return []
   class _R(ast.NodeTransformer):
     def visit_Name (self, n):
